@@ -60,8 +60,40 @@ class Session(object):
         for full in self.prog.funcs:
             pkg, short = spec_key(full)
             self.byspec['%s::%s' % (pkg, short)] = full
+        self.bind_closures()
         self.workdir = workdir or tempfile.mkdtemp(prefix='gowp-')
         self.unbound = [k for k in self.specs.funcs if k not in self.byspec and not self.specs.funcs[k].trusted and '::' in k and k.split('::')[0] in pkgs]
+
+    def bind_closures(self):
+        """contracts written as `func F closure @"text"`: bound to the innermost function literal of F whose
+        source lines contain the text"""
+        for k in [k for k in self.specs.funcs if '$@' in k]:
+            sp = self.specs.funcs[k]
+            parent_key, anchor = k.split('$@', 1)
+            parent = self.byspec.get(parent_key)
+            if parent is None:
+                continue
+            best = None
+            for full, fn in self.prog.funcs.items():
+                if not full.startswith(parent + '$') or not fn.get('file'):
+                    continue
+                ls = [ins.get('line') for b in fn['blocks'] for ins in b['instrs'] if ins.get('line')]
+                if not ls:
+                    continue
+                lo, hi = min(ls) - 1, max(ls)
+                try:
+                    src = open(fn['file']).read().split('\n')
+                except OSError:
+                    continue
+                if any(anchor in l for l in src[max(lo - 1, 0):hi]):
+                    if best is None or hi - lo < best[0]:
+                        best = (hi - lo, full)
+            if best is not None:
+                pkg, short = spec_key(best[1])
+                nk = '%s::%s' % (pkg, short)
+                del self.specs.funcs[k]
+                sp.name = nk
+                self.specs.funcs[nk] = sp
 
     def resolver(self, callee):
         pkg, short = spec_key(callee)
